@@ -34,7 +34,9 @@ type peerSim struct {
 var peerIPs = []string{"10.0.1.1", "10.0.1.2", "10.0.1.3"}
 var peerPorts = []uint16{7001, 7002, 7003}
 
-func newPeerSim(c *sim.Ctx, blocks int) *peerSim {
+func newPeerSim(c *sim.Ctx, blocks int) *peerSim { return newPeerSimOpts(c, blocks, nil) }
+
+func newPeerSimOpts(c *sim.Ctx, blocks int, tweak func(ns *netSim)) *peerSim {
 	w := newWorld(c, 0, worldOpts{hugeWeight: 0})
 	s := &peerSim{c: c, w: w, seen: map[*chaosPeer]int{}, intro: map[*chaosPeer]bool{}, pend: map[string]bool{}, prev: map[string]daemon.VerifConn{}, reasons: map[*link]error{}}
 	if blocks > 0 {
@@ -43,6 +45,9 @@ func newPeerSim(c *sim.Ctx, blocks int) *peerSim {
 	s.ns = newNetSim(c, w)
 	s.ns.drawKnobs(false)
 	s.ns.knobs.ipCountsMax = 2 + c.T.Int("knob-ipcounts", 2)
+	if tweak != nil {
+		tweak(s.ns)
+	}
 	s.n = s.ns.addDaemon(w.nodes[0], "10.0.0.1", 6000, 0xAAAA)
 	s.ns.onDisconnect = func(n *netNode, l *link, reason error) { s.reasons[l] = reason }
 	return s
